@@ -110,6 +110,7 @@ type Machine struct {
 	concIdx     int
 	ufPoints    map[string][]ufPoint
 	inInit      int
+	pbkdf2Calls []string
 	sd          *smallDom
 	model       map[*smt.Term]*smt.Term // last satisfying assignment of the nondets, valid for the current pc
 	modelMemo   map[*smt.Term]*smt.Term
